@@ -329,7 +329,10 @@ class Interp:
         if isinstance(op, ast.Add) and isinstance(a, (PyList, SList)) and isinstance(b, (PyList, SList)):
             return self.list_concat(a, b, node)
         if isinstance(op, ast.Mult) and isinstance(a, (str, bytes)) and not is_concrete(b):
-            return kind_of(a).fresh(self.ctx, "rep")
+            r = kind_of(a).fresh(self.ctx, "rep")
+            n = ops.as_int_term(b)
+            self.ctx.assume(z3.Length(r.term) == z3.If(n < 0, z3.IntVal(0), n * len(a)))
+            return r
         if isinstance(op, (ast.FloorDiv, ast.Mod, ast.Div)) and not self.spec_mode:
             kb = kind_of(b)
             if kb in ops.NUM:
@@ -439,6 +442,8 @@ class Interp:
             if ("%s.%s" % (recv.kind.name, attr)) in self.pack.models:
                 return BoundMethod(recv, attr)
         if isinstance(recv, Sym) and isinstance(recv.kind, Rec):
+            if ("%s.%s" % (recv.kind.name, attr)) in self.pack.models:
+                return BoundMethod(recv, attr)
             if attr in recv.kind.fields:
                 return recv.kind.fields[attr].wrap(recv.kind.field_fn(attr)(recv.term))
         if isinstance(recv, ModuleRef):
@@ -476,6 +481,9 @@ class Interp:
             lo = self.eval(node.slice.lower, env) if node.slice.lower else None
             hi = self.eval(node.slice.upper, env) if node.slice.upper else None
             if node.slice.step is not None:
+                h = self.pack.models.get("slicestep:" + getattr(recv, "tag", "?"))
+                if h:
+                    return h(self, recv, lo, hi, self.eval(node.slice.step, env))
                 self.unsupported(node, "slice step")
             return self.slice(recv, lo, hi, node)
         idx = self.eval(node.slice, env)
@@ -1265,7 +1273,10 @@ class Interp:
                     self.assign_target(sub, x, env)
         elif isinstance(t, ast.Subscript):
             obj = self.eval(t.value, env)
-            idx = self.eval(t.slice, env)
+            if isinstance(t.slice, ast.Slice):
+                idx = ("slice", self.eval(t.slice.lower, env) if t.slice.lower else None, self.eval(t.slice.upper, env) if t.slice.upper else None)
+            else:
+                idx = self.eval(t.slice, env)
             self.pack.container_method(self, obj, "__setitem__", [idx, v], {}, t)
         else:
             self.unsupported(t, "assignment target")
